@@ -459,7 +459,11 @@ pub fn replay(args: &Args) -> ! {
         std::process::exit(0);
     }
     let f = parse_failure(&out);
-    println!("{}", head(&out.stderr, 30));
+    println!("{}", f.stderr_excerpt);
+    println!("failing schedule (harness-level steps):");
+    for e in &f.events {
+        println!("  {e}");
+    }
     println!("VIOLATION property={} replay={}", args.prop, path.display());
     println!("  key: {}", v["key"].as_str().unwrap_or(""));
     println!("  {}", f.message.lines().next().unwrap_or(""));
